@@ -296,6 +296,11 @@ func VerifC16Concurrent() {
 		verif.Assert("both-updates-applied", hx && hy)
 	}
 	verif.Reach("end")
+	// request serialisation: the two clients never touch the crew or the store unordered
+	for _, r := range verif.RaceReports() {
+		verif.Note("race: " + r)
+		verif.Assert("no-data-race", false)
+	}
 }
 
 var _ = crew.NewSpecSource
